@@ -112,6 +112,23 @@ def tiesInFileOrder (num : BioFeature → Option Int) : List BioFeature → Bool
 
 def ofType (t : String) (fs : List BioFeature) : List BioFeature := fs.filter (·.type == t)
 
+/-- executable form of `InNumberOrder` -/
+def inNumberOrderB (type : String) (num : BioFeature → Option Int) : List BioFeature → Bool
+  | [] => true
+  | f :: rest =>
+    (rest.all fun g => !(f.type == type) || !(g.type == type) ||
+      (match num f, num g with
+       | some a, some b => decide (a < b)
+       | _, _ => true)) && inNumberOrderB type num rest
+
+
+/-- the features of one kind stand in the list in the order of their numbers (what `Record.to_biopython` gives for
+    protoclusters and subregions: the record numbers them by their place in its sorted lists and writes them out in
+    that order) -/
+def InNumberOrder (type : String) (num : BioFeature → Option Int) (fs : List BioFeature) : Prop :=
+  fs.Pairwise (fun f1 f2 => f1.type = type → f2.type = type → ∀ a b, num f1 = some a → num f2 = some b → a < b)
+
+
 def inRange (n : Nat) (xs : List Int) : Bool := xs.all fun x => decide (1 ≤ x) && decide (x ≤ (n : Int))
 
 /-- every reference by number made in the file points at an area present in the file -/
